@@ -195,6 +195,22 @@ Proof.
     rewrite Hnext, Zplus_mod_idemp_l. f_equal. lia.
 Qed.
 
+(* the packet that completes a group always leaves the encoder at the start of the next group:
+   the p parity ids are consumed whether the parity is emitted (and later sent or dropped by
+   postProcess) or skipped for discontinuity *)
+Theorem parity_ids_consumed e g x now rto :
+  enc_inv e g -> fe_count e + 1 = fe_d e ->
+  let e1 := fst (fst (fec_encode e x now rto)) in
+  fe_next e1 = ((g + 1) * fe_ss e) mod fe_paws e /\ fe_count e1 = 0.
+Proof.
+  intros Hinv Hc. cbn zeta.
+  destruct (fec_encode e x now rto) as [[e1 pkt] ps] eqn:E. cbn [fst].
+  pose proof (fec_encode_step e g x now rto e1 pkt ps Hinv E) as H. cbn zeta in H.
+  destruct H as (_ & _ & _ & Hss & Hpw & _ & _ & _ & Heq).
+  destruct (Heq Hc) as ((_ & _ & Hn) & Hc0 & _).
+  rewrite Hn, Hc0, Hss, Hpw, Z.add_0_r. split; reflexivity.
+Qed.
+
 (* ---------------------------------------------------------------- a whole run: ids and types *)
 Definition seqid_of (pkt : bytes) : Z := rd32 pkt.
 Definition type_of (pkt : bytes) : Z := rd16 (skipn 4 pkt).
